@@ -1,7 +1,7 @@
 #!/bin/bash
 # tools/confirm_seed.sh <Cxx> <mN> : confirm a seeded change in its scratch worktree /tmp/mut/<Cxx>:
 #  demo passes on unchanged code; with the patch: builds, full suite passes, demo fails.  Then store under /verif/seeded/.
-ID=$1; M=$2; WT=/tmp/mut/$ID; O=$WT/_out/$M
+ID=$1; M=$2; WT=${MUTROOT:-/tmp/mut}/$ID; O=$WT/_out/$M
 export GOFLAGS=-mod=mod GOPROXY=off GOSUMDB=off GOTOOLCHAIN=local
 cd $WT || exit 2
 git checkout -q -- . ; git clean -fdq -e _out
@@ -26,7 +26,7 @@ if [ -z "$DEMO" ]; then
 fi
 BN=$(basename $DEMO)
 # intended path: first path in notes.md ending with the file name, else by package name
-REL=$(grep -oE "[A-Za-z0-9_/.-]*/$BN" $O/notes.md | grep -v _out | sed 's#^/tmp/mut/[^/]*/##' | head -1)
+REL=$(grep -oE "[A-Za-z0-9_/.-]*/$BN" $O/notes.md | grep -v _out | sed "s#^/tmp/mut[0-9]*/[^/]*/##" | head -1)
 [ -z "$REL" ] && { echo "cannot find intended path for $BN"; exit 2; }
 DIR=$(dirname $REL)
 cp $DEMO $WT/$REL
